@@ -27,7 +27,12 @@ RULE = ("real AdaptationManager (fresh per case) over hierarchies built with typ
         "(thorough).  Plus CPython list.sort(cmp_to_key) with arbitrary non-transitive tables and heapq against the two "
         "CPython models.  A case is non-trivial when a query went through _adapt (factory log non-empty) or raised; "
         "distinct = distinct output line")
-TRUSTED = ["issubclass and inspect.getmro are computed by CPython from the real classes and sent to the model as tables "
+TRUSTED = ["the Python validator BaseInstance.validate (first assignment to a trait declared with a forward-reference "
+           "string, every assignment to BaseInstance(adapt=...)) and the C validator validate_trait_adapt are ONE model "
+           "function (validateTrait): their agreement is checked by the run (queries t FS / FA / FI / BI: first vs later "
+           "assignment, brute-force 'accepted iff a chain exists' oracle, falsy adapters), not proved from the source of "
+           "BaseInstance.validate",
+           "issubclass and inspect.getmro are computed by CPython from the real classes and sent to the model as tables "
            "(recomputed and compared in run_impl)",
            "source tie (translate/pyadapt.py -> Generated/AdaptProg.lean, Model/PyA.lean, C17_search_is_source, "
            "C17_adapt_is_source, C17_supports_is_source, C17_register_is_source): the source "
@@ -36,8 +41,9 @@ TRUSTED = ["issubclass and inspect.getmro are computed by CPython from the real 
            "(adapt's default value and the singletons AdaptationError / _MISSING are compared by identity; the text of the "
            "AdaptationError message is not observed, only that building it cannot fail; "
            "self._adaptation_offers.setdefault(name, []) yields an ALIAS of the bucket; register_factory / "
-           "register_provides / AdaptationOffer's name resolution are NOT translated: offer.from_protocol_name is the "
-           "model's Offer.key); PARAMETERS of the interpreter: issubclass and "
+           "register_provides / no_adapter_necessary / AdaptationOffer._get_from_protocol_name + _get_type_name are not "
+           "interpreted: their normalised statement texts are compared literally (C17_register_wrappers_source); "
+           "offer.from_protocol_name is the model's Offer.key); PARAMETERS of the interpreter: issubclass and "
            "inspect.getmro(t)[1:] (tables), self._adaptation_offers.items() (the registry in dict order, keys opaque), "
            "type(adaptee), offer.factory (factory table, call ordinal = number of factory calls so far); MODELLED "
            "BUILTINS: itertools.count/next (counter from 0), list.sort(key=cmp_to_key(f)) = pySort with x<y := f(x,y)<0 "
@@ -136,6 +142,8 @@ def generate(rng, tier):
     yield from L.awkward_sweep()
     for i in range(n // 2):
         yield L.random_awkward_case(rng)
+    for i in range(n // 2):
+        yield L.random_forward_case(rng)
     for i in range(n // 10):
         yield L.random_case(rng, ordinal=True)
     for i in range(n // 30):
@@ -332,9 +340,25 @@ def run_impl(case):
             hits += _after_late(hs, late, tags)
             continue
         if kind == "t":
-            cls, mode, an = w[1], int(w[2]), int(w[3])
-            tcls = {"I": Instance, "S": Supports, "A": AdaptsTo}[cls]
-            tr = tcls(target, factory=L.Default, adapt=("no", "yes", "default")[mode], allow_none=bool(an))
+            cls0, mode, an = w[1], int(w[2]), int(w[3])
+            # FS / FA / FI: declared with a forward-reference STRING (first assignment = Python validator
+            # BaseInstance.validate, which resolves the class and installs the C validator for later ones);
+            # BI: BaseInstance(adapt=...), always the Python validator
+            cls = "I" if cls0 == "BI" else cls0[-1]
+            forward = cls0[0] == "F" and target not in (object, type(None)) and not collide
+            adapt_arg = ("no", "yes", "default")[mode]
+            if cls0 == "BI":
+                from traits.trait_types import BaseInstance
+                tr = BaseInstance(target, factory=L.Default, adapt=adapt_arg, allow_none=bool(an))
+                tags.add("python-validator:BaseInstance")
+            else:
+                tcls = {"I": Instance, "S": Supports, "A": AdaptsTo}[cls]
+                if forward:
+                    hier.install_module()
+                    tr = tcls("%s.%s" % (L.MODULE, target.__name__), factory=L.Default, adapt=adapt_arg,
+                              allow_none=bool(an))
+                else:
+                    tr = tcls(target, factory=L.Default, adapt=adapt_arg, allow_none=bool(an))
             H = type("H", (HasTraits,), {"x": tr})
             h = H()
             old = aapi.get_global_adaptation_manager()
@@ -350,27 +374,57 @@ def run_impl(case):
                 continue
             log_s = ctx.show_log()
             trait_log = list(ctx.log)
-            tags.add("t:%s%d" % (cls, mode))
-            if exc is not None:
-                obs = "err " + exc_name(exc)
-                x = x_ = None
-            elif src is None:
-                obs = "x=none"
-                x = x_ = None
-            else:
-                x = h.x
-                x_ = h.__dict__.get("x_", _MISSING)
-                obs = "x=%s x_=%s" % (_classify_t(ctx, src, x), "-" if x_ is _MISSING else _classify_t(ctx, src, x_))
+            tags.add("t:%s%d" % (cls0, mode))
+
+            def observe(hh, e):
+                if e is not None:
+                    return "err " + exc_name(e), None, None
+                if src is None:
+                    return "x=none", None, None
+                a = hh.x
+                a_ = hh.__dict__.get("x_", _MISSING)
+                return ("x=%s x_=%s" % (_classify_t(ctx, src, a), "-" if a_ is _MISSING else _classify_t(ctx, src, a_)),
+                        a, a_)
+            obs, x, x_ = observe(h, exc)
             outs.append(obs + " " + log_s)
             tags.add("t-res:" + obs.split()[0].split("=")[0] + ("-err" if exc is not None else ""))
+            falsy_adapter = any(v is not None and v is not _MISSING and isinstance(v, L.ADS) and not _truth(v)
+                                for v in (x, x_))
+            if falsy_adapter:
+                tags.add("t-falsy-adapter:" + cls0)
+            t_hits = []
+            if forward and src is not None:
+                # the first assignment resolved the string; a LATER assignment of the same value (fresh holder,
+                # same class-level trait: now the C validator) must do exactly the same
+                tags.add("forward-reference:first-assignment")
+                if tr.klass is not target:
+                    t_hits.append(_hit("forward-reference-not-resolved", "klass is still %r after the first assignment"
+                                       % (tr.klass,), query=q))
+                if deterministic:
+                    ctx.reset(src)
+                    h2 = H()
+                    aapi.set_global_adaptation_manager(mgr)
+                    try:
+                        _, exc2 = _guarded(lambda: setattr(h2, "x", src))
+                    finally:
+                        aapi.set_global_adaptation_manager(old)
+                    obs2 = observe(h2, exc2)[0] + " " + ctx.show_log()
+                    tags.add("forward-reference:later-assignment")
+                    if obs2 != obs + " " + log_s:
+                        t_hits.append(_hit("trait-differs:forward-first-vs-later:%s%d" % (cls, mode),
+                                           "first assignment (Python validator) gave [%s], a later one (C validator) [%s]"
+                                           % (obs + " " + log_s, obs2), query=q))
             # --------------------------------------------- oracle: the trait applies exactly adapt()
             ctx.reset(src)
             ref_exc = None
             ref = None
             if src is not None:
                 ref, ref_exc = _guarded(lambda: mgr.adapt(src, target, None))
-            hits += _after_late(_oracle_trait(cls, mode, an, src, target, exc, x, x_, ref, ref_exc, trait_log, ctx),
-                                late, tags)
+            t_hits += _oracle_trait(cls, mode, an, src, target, exc, x, x_, ref, ref_exc, trait_log, ctx)
+            # --------------------------------------------- oracle: accepted iff a chain exists (brute force)
+            t_hits += _oracle_trait_chain(cls0, cls, mode, q, src, src_type, target, info, ctx, exc, x, x_, trait_log,
+                                          deterministic, tags)
+            hits += _after_late(t_hits, late, tags)
             continue
         outs.append("bad-query")
     if collide:
@@ -540,6 +594,44 @@ def _run_history(q, hier, offers, ftab, tags):
             hits.append(_hit(sig, what, query=q, step=n))
     L.CUR_STEP[0] = None
     return " / ".join(outs), hits
+
+
+def _oracle_trait_chain(cls0, cls, mode, q, src, src_type, target, info, ctx, exc, x, x_, trait_log, deterministic, tags):
+    """adapt='yes': the assignment succeeds iff the value is an instance or some valid chain has factories that all
+    succeed; adapt='default': it always succeeds and gives the trait default iff there is none.  Existence is decided
+    by brute-force enumeration of the chains, independently of AdaptationManager and of the model; whether the
+    adapter is truthy plays no role."""
+    hits = []
+    if src is None or mode == 0 or not deterministic or any(r == "!" for _, r, _ in trait_log):
+        return hits
+    if isinstance(src, target):
+        exists, how = True, "the value is an instance"
+    else:
+        try:
+            chains = L.enum_chains(src_type, target, info, limit=20000)
+        except L.TooBig:
+            tags.add("oracle-too-big")
+            return hits
+        good = [c for c in chains if L.chain_succeeds(c, info, ctx.bykey, False)]
+        exists, how = bool(good), "a chain exists (%s)" % (list(good[0]) if good else None)
+    adapted = x_ if cls == "A" else x
+    got_default = exc is None and isinstance(adapted, L.Default)
+    accepted = exc is None and not got_default
+    falsy = accepted and isinstance(adapted, L.ADS) and not _truth(adapted)
+    tags.add("t-chain-oracle:%s" % ("exists" if exists else "none"))
+    if exists and not accepted:
+        hits.append(_hit("trait-rejects-although-chain-exists:%s%d" % (cls0, mode),
+                         "%s but the assignment %s" % (how, "gave the trait default" if got_default else
+                                                       "raised %s" % exc_name(exc)), query=q))
+    elif not exists and accepted:
+        hits.append(_hit("trait-accepts-without-chain:%s%d" % (cls0, mode),
+                         "no successful chain and not an instance, but the assignment stored %r" % (type(adapted).__name__,),
+                         query=q))
+    elif not exists and mode == 1 and (exc is None or exc_name(exc) != "TraitError"):
+        hits.append(_hit("trait-no-chain-not-TraitError:%s%d" % (cls0, mode), "got %s" % (exc,), query=q))
+    if falsy:
+        tags.add("t-chain-oracle:falsy-adapter-accepted")
+    return hits
 
 
 def _classify_t(ctx, src, r):
